@@ -127,6 +127,22 @@ fn family_list(rng: &mut Rng, counter: &mut usize) -> (Vec<String>, Vec<ClaimUrl
         let u = format!("https://x.example.com/dl{}/ad.js#src=https://{}/", j, other[k]);
         if neg { urls.push((u, "script".to_string(), vec![a.clone()], vec![])) } else { urls.push((u, "script".to_string(), vec![], vec![a.clone()])) }
     }
+    // badfilter near-twins whose domain list is a strict SUBSET of the rule's (one extra domain on the rule): a
+    // badfilter id computed from a lossy summary of the domain list (union of hashes, count, first entry ...) pairs them
+    {
+        let base: Vec<String> = (0..6).map(|i| format!("sub{:02}set.example.org", i)).collect();
+        for i in 0..8 {
+            let mut doms = base.clone();
+            doms.push(format!("extra{}site.com", i));
+            let line = format!("/dm{}/ad.$domain={}", i, doms.join("|"));
+            lines.push(line.clone());
+            lines.push(format!("/dm{}/ad.$domain={},badfilter", i, base.join("|")));
+            let body = format!("/dm{}/ad.", i);
+            let a = ast(&line, "none", &body, false, false, "", &doms, &[]);
+            urls.push((format!("https://x.example.com/dm{}/ad.js#src=https://{}/", i, base[i % 6]), "script".to_string(), vec![a.clone()], vec![]));
+            urls.push((format!("https://x.example.com/dm{}/ad.js#src=https://extra{}site.com/", i, i), "script".to_string(), vec![a.clone()], vec![]));
+        }
+    }
     // raw non-ASCII characters where a separator has to match
     lines.push("/uni/*img^".to_string());
     lines.push("/uni/*pixel^".to_string());
@@ -176,7 +192,7 @@ pub fn record_c01(out: &str, seed: u64, n_lists: usize, reqs_per_list: usize) {
         }
         // corpus badfilter rules are dropped (cancellation needs the spec's Cancels on full ASTs); the
         // synthetic badfilter near-twins are kept: none of them is a true twin, so nothing is cancelled
-        lines.retain(|l| !l.contains("badfilter") || l.starts_with("/dl"));
+        lines.retain(|l| !l.contains("badfilter") || l.starts_with("/dl") || l.starts_with("/dm"));
         lines.sort();
         lines.dedup();
         // shuffle deterministically
